@@ -52,6 +52,35 @@ def gen_zf(rng, tier):
         big += [b"a. 1 IN WKS 1.2.3.4 6 65535"]
     for f in big:
         yield f"zf {rng.choice(['w', 'b4096', 'b1'])} {hx(f)}"
+    # types with a syntax of their own written in the RFC 3597 form with RDATA that is NOT valid for the type
+    # (valid RDATA with octets appended, removed or altered): the parser must refuse them, never yield them
+    fixed_bad = [b". 0 IN NS \\# 2 0000", b"x. 5 CH PTR \\# 6 016100 ( 01 \n 6200 )", b"a. 60 IN NS \\# 4 00c0ffee", b"a. 1 IN A \\# 5 0102030405",
+                 b"a. 1 IN AAAA \\# 15 " + b"00" * 15, b"a. 1 IN MX \\# 4 00010000", b"a. 1 IN SOA \\# 23 0000" + b"00" * 21, b"a. 1 IN SRV \\# 8 0001000200030000",
+                 b"a. 1 IN HINFO \\# 3 016100", b"a. 1 IN HINFO \\# 5 0161016200", b"a. 1 IN TXT \\# 3 026161 00", b"a. 1 IN MINFO \\# 3 000000", b"a. 1 CH A \\# 4 00000100",
+                 b"a. 1 IN WKS \\# 4 01020304"]
+    for f in fixed_bad:
+        yield f"zf w {hx(f)}"
+    for i in range(400 if quick else 10000):
+        t, c, fields = zfgen.rand_rdata(rng, False, rng.random() < 0.3)
+        while t not in zfgen.TYPE_NAMES or (fields and fields[0][0] == "gen"):
+            t, c, fields = zfgen.rand_rdata(rng, False, rng.random() < 0.3)
+        d = bytearray(zfgen.rdata_octets(fields))
+        r = rng.random()
+        if r < 0.5 or not d:
+            d += bytes(rng.randrange(256) for _ in range(rng.choice([1, 1, 2, 3])))
+        elif r < 0.8:
+            del d[rng.randrange(len(d)):]
+        else:
+            d[rng.randrange(len(d))] = rng.randrange(256)
+        h = bytes(d).hex()
+        words = [h]
+        if d and rng.random() < 0.3:
+            cut = 2 * rng.randint(1, len(d))
+            words = [w for w in (h[:cut], h[cut:]) if w]
+        cls = c if c is not None else rng.choice([1, 1, 3, 4])
+        line = b"a. 1 " + zfgen.render_class(rng, cls, caseless) + b" " + zfgen.render_type(rng, t, caseless) + b" \\# %d " % len(d) + " ".join(words).encode()
+        tail = rng.choice([b"\n", b"\nb. 1 IN A 1.2.3.4\n", b""])
+        yield f"zf {modes(rng)} {hx(line + tail)}"
     n = 6000 if quick else 150000
     for i in range(n):
         base, _ = zfgen.gen_file(rng, caseless=caseless)
@@ -259,7 +288,8 @@ CHECK = {
         {"name": "zonefuzz", "runner_name": "C24_run", "impl_bin": "impl_c24", "extract": "Extract/ExC24.v", "driver": "run_c24.ml",
          "gen": gen_zf, "nontrivial": nontrivial_zf, "classify": classify_zf, "oracle_ok": oracle_zf,
          "exhaustive": {"quick": False, "thorough": False},
-         "rule": ("hand-written boundary files (both whole and 1-octet-at-a-time streams), oversize field / include path / TXT / WKS inputs, and seeded inputs: "
+         "rule": ("hand-written boundary files (both whole and 1-octet-at-a-time streams), oversize field / include path / TXT / WKS inputs, types with a syntax of "
+                  "their own written in the RFC 3597 form with RDATA that is invalid for the type (valid RDATA with octets appended / removed / altered), and seeded inputs: "
                   "25% well-formed files from the structured generator (all RR types, $ORIGIN/$TTL/$INCLUDE, parentheses, comments, escapes, \\# RDATA, LF/CRLF), "
                   "50% truncation/insertion/deletion/replacement/duplication mutants of such files, 15% token soups from a zone-file vocabulary, 10% random octets; "
                   "each fed through Read impls returning everything / 1 / 2 / 3 / 7 / 4096 octets per call; "
